@@ -199,16 +199,19 @@ def classify_verus(info):
     return "logical", funcs, fails, smt_ms, vr.get("verified", 0)
 
 
-def fn_at_line(text, line):
-    """name of the fn whose item contains `line` (1-based) in generated text"""
+def fn_at_line(text, line, want_uc=False):
+    """name of the fn whose item contains `line` (1-based) in generated text
+    (want_uc: also say whether it is a function extracted from /repo, marked /*@uc:..*/)"""
     best = None
-    for m in re.finditer(r"\bfn\s+(\w+)", text):
-        ln = text.count("\n", 0, m.start()) + 1
+    uc = False
+    for m in re.finditer(r"(/\*@uc:\w+\*/\s*(?:pub(?:\([^)]*\))?\s+)?)?\bfn\s+(\w+)", text):
+        ln = text.count("\n", 0, m.end()) + 1
         if ln <= line:
-            best = m.group(1)
+            best = m.group(2)
+            uc = bool(m.group(1))
         else:
             break
-    return best
+    return (best, uc) if want_uc else best
 
 
 def run_verus_unit(unit, repo, want_canary=True):
@@ -245,8 +248,14 @@ def run_verus_unit(unit, repo, want_canary=True):
     res["wall_s"] = round(time.time() - t0, 2)
     if status == "logical":
         for f in fails:
-            f["function"] = fn_at_line(text, f["line"])
+            f["function"], f["in_repo_code"] = fn_at_line(text, f["line"], want_uc=True)
         res["failures"] = fails
+        if not any(f["in_repo_code"] for f in fails):
+            # every failed obligation sits in a spec-level lemma / helper: its proof does not depend on
+            # the code of /repo, so this is proof instability, not a property violation
+            res["status"] = "undecided"
+            res["reason"] = "proof of a spec-level lemma failed (%s); no obligation of extracted /repo code failed" % \
+                ", ".join(sorted(set(str(f["function"]) for f in fails)))
     elif status == "undecided":
         res["reason"] = fails[0]["text"] if fails else "unknown"
     # vacuity canary: contract with `false` appended must fail
@@ -422,7 +431,7 @@ def main():
     ap.add_argument("--repo", default="/repo")
     ap.add_argument("--update-ledger", action="store_true")
     ap.add_argument("--only", default=None)
-    ap.add_argument("--jobs", type=int, default=int(os.environ.get("VERIF_JOBS", "8")))
+    ap.add_argument("--jobs", type=int, default=int(os.environ.get("VERIF_JOBS", "16")))
     ap.add_argument("--no-evidence", action="store_true")
     args = ap.parse_args()
     prop = args.prop
